@@ -13,6 +13,15 @@ use complgen::dfa::{DFA, diagnostic_display_input};
 use complgen::regex::{Regex, RegexInternPool};
 use complgen::{Error, bash, fish, pwsh, zsh};
 
+// std's eprintln!() panics (exit status 101) if stderr can't be written to (closed pipe, full disk).  Diagnostics
+// are best effort: a failure to print a warning mustn't prevent the script from being generated and a failure to
+// print an error mustn't change the exit status.
+macro_rules! eprintln {
+    ($($arg:tt)*) => {{
+        let _ = writeln!(std::io::stderr(), $($arg)*);
+    }};
+}
+
 #[derive(clap::Parser)]
 struct Cli {
     #[clap(long, help = "Show version and exit")]
